@@ -534,7 +534,15 @@ def run(ctx):
                     pol = ft.pol
                     for n_, p_ in atoms([ft]):
                         n_ = strip(n_)
-                        if n_.get('kind') == 'CXXMemberCallExpr' and call_name(n_) == 'eof' and p_ is True:
+                        at_end = n_.get('kind') == 'CXXMemberCallExpr' and call_name(n_) == 'eof' and p_ is True
+                        # the same test spelled with the position: where() == size / where() >= size / remaining() == 0
+                        r_ = relation(n_, p_)
+                        if r_:
+                            szn = params_of(cptr[0])[1].get('name')
+                            for a_, o_, b_ in ((canon(r_[0]), r_[1], canon(r_[2])), (canon(r_[2]), FLIP[r_[1]], canon(r_[0]))):
+                                if (a_.endswith('.where()') and o_ in ('==', '>=') and b_ == szn) or (a_.endswith('.remaining()') and o_ == '==' and b_ == '0'):
+                                    at_end = True
+                        if at_end:
                             thr = [t for t in walk(ft.origin) if t.get('kind') == 'CXXThrowExpr']
                             if thr and norm_type(dtype(kids(thr[0])[0])).endswith('parse_error'):
                                 good = True
